@@ -1,10 +1,11 @@
 import S3V.Props.C20Policy
 /-!
-# C20, policy documents: the two full statements are false of the model (and of the code)
+# C20, policy documents: the full round-trip statement is false of the model (and of the code)
 
-Each counterexample is a concrete value / document; the same inputs are witnesses in
-`corpus/policy.txt` and reproduce on the real code (`known_findings.d/policy.json`). The second half of
-the file holds the regression facts of the repaired findings.
+The counterexample is a concrete value; the same input is a witness in `corpus/policy.txt` and
+reproduces on the real code (`known_findings.d/policy.json`). The second half of the file holds the
+regression facts of the repaired findings (the full refusal statement, false until the last of them, is
+proved: `C20_policy_outside_grammar_refused`).
 -/
 namespace S3V.C20
 open S3V S3V.Policy S3V.PolicySpec
@@ -27,44 +28,42 @@ theorem C20_policy_roundtrip_full_false : ¬ C20_policy_roundtrip_full := by
   rw [hback] at this
   exact hne (Option.some.inj this)
 
-/-- a document outside the grammar, in the remaining `quirk` region, accepted: `"Effect": {"Allow": null}` -/
-theorem C20_policy_outside_grammar_accepted :
-    inGrammar Ex.docEffectObjectForm = false ∧ fromJson? Ex.docEffectObjectForm = some (Ex.policy2 none) := by
-  decide
-
-/-- refusal of everything outside the grammar does not hold -/
-theorem C20_policy_outside_grammar_refused_full_false : ¬ C20_policy_outside_grammar_refused_full := by
-  intro h
-  have h1 := h Ex.docEffectObjectForm C20_policy_outside_grammar_accepted.1
-  have h2 := (fromJson_ok_iff _ _).mpr C20_policy_outside_grammar_accepted.2
-  rw [h1] at h2
-  cases h2
-
 /-! ## regression facts: repaired findings
 
 F-policy-1 (`policy-conflicting-rule-members-accepted`), F-policy-2
-(`policy-malformed-principal-dropped`) and F-policy-4 (`policy-array-form-accepted`): the former
-witnesses are outside the grammar, outside the remaining `quirk` region (so
-`C20_policy_outside_grammar_refused_partial` speaks about them) and are refused. Before the repairs the
-first two were read as `Ex.policy2 none`, the array form as `Ex.policy2 (some .v2012_10_17)`. -/
+(`policy-malformed-principal-dropped`), F-policy-4 (`policy-array-form-accepted`) and F-policy-3
+(`policy-enum-object-form-accepted`): the former witnesses are outside the grammar and are refused.
+Before the repairs the first two and `"Effect": {"Allow": null}` were read as `Ex.policy2 none`, the
+array form as `Ex.policy2 (some .v2012_10_17)`. -/
 
 /-- `Action` next to `NotAction` (either order), the same block twice, `Principal` next to `NotPrincipal` -/
 theorem C20_policy_conflicting_members_refused :
     ∀ j ∈ [Ex.docBothActions, Ex.docNotActionThenAction, Ex.docResourceTwice, Ex.docBothPrincipals],
-      violation true j = some .conflictingMembers ∧ quirk j = false ∧ fromJson? j = none := by
+      violation true j = some .conflictingMembers ∧ fromJson? j = none := by
   decide
 
 /-- `"Principal": 5`, a string other than `"*"`, `null`: an error of the statement, not "no principal" -/
 theorem C20_policy_malformed_principal_refused :
     ∀ j ∈ [Ex.docNumberPrincipal, Ex.docStringPrincipal, Ex.docNullPrincipal],
-      violation true j = some .principalShape ∧ quirk j = false ∧ fromJson? j = none := by
+      violation true j = some .principalShape ∧ fromJson? j = none := by
   decide
 
 /-- the policy as a three-element array `[version, id, statement]` (statement single or a list), and
     arrays of two and four elements: not an object, refused -/
 theorem C20_policy_array_form_refused :
     ∀ j ∈ [Ex.docArrayForm, Ex.docArrayFormList, Ex.docArrayFormShort, Ex.docArrayFormLong],
-      violation true j = some .arrayForm ∧ quirk j = false ∧ headMust j = false ∧ fromJson? j = none := by
+      violation true j = some .arrayForm ∧ headMust j = false ∧ fromJson? j = none := by
   decide
+
+/-- `"Effect": {"Allow": null}`, `"Version": {"2012-10-17": null}`, `{"Deny": null}` in the second
+    statement of a list, both members in object form: a string is wanted, refused -/
+theorem C20_policy_enum_object_form_witnesses_refused :
+    ∀ j ∈ [Ex.docEffectObjectForm, Ex.docVersionObjectForm, Ex.docEffectObjectFormInList, Ex.docBothObjectForms],
+      violation true j = some .enumObjectForm ∧ fromJson? j = none := by
+  decide
+
+/-- the refusal clause as one proposition, false of the code until the four repairs above -/
+theorem C20_policy_outside_grammar_refused_full_holds : C20_policy_outside_grammar_refused_full :=
+  C20_policy_outside_grammar_refused
 
 end S3V.C20
